@@ -17,6 +17,7 @@ type exprCase struct {
 	expr  string // JS expression (its value is rendered with __c)
 	model func(w *cw) (this om.Value, call func() om.Value)
 	fresh bool
+	post  string // cleanup statements after the observation
 }
 
 func runExpr(r *engine.Run, im *objdrv.Impl, c exprCase, fill func(aux map[string]string)) {
@@ -25,7 +26,7 @@ func runExpr(r *engine.Run, im *objdrv.Impl, c exprCase, fill func(aux map[strin
 	}
 	src := fmt.Sprintf("%s __log = []; __done = false; __ret = undefined; __ret = __c(%s); __done = true; 0", c.setup, c.expr)
 	objdrv.Begin(r, c.key)
-	obs := observe(im, src, "")
+	obs := observe(im, src, c.post)
 	objdrv.End()
 	exp := exprExpect(c, om.Quirks{})
 	compare(r, c.key, src, exp, obs, false, func(aux map[string]string) {
